@@ -219,6 +219,7 @@ class Contract:
         self.raises = d.get('raises', {})            # exc class -> condition fn (must hold when raised)
         self.raises_iff = d.get('raises_iff', {})    # exc class -> condition fn (raised exactly when)
         self.pins = {k: _fn(v) for k, v in d.get('pins', {}).items()}
+        self.init = _fn(d.get('init'))               # symbolic only: establishes derived fields of record parameters (representation invariant)
         self.call = _fn(d.get('call'))               # params -> dict of keyword arguments of the target
         self.build = _fn(d.get('build'))
         self.sample = _fn(d.get('sample'))
@@ -286,6 +287,7 @@ def spec(fn):
 
 
 OPAQUE = {}
+INSTALLERS = []       # functions(reg) registered by contract modules (assumed constructor / callee models)
 
 
 def opaque(result='int', outlen=None, facts=None, max_len=9):
